@@ -664,7 +664,7 @@ Proof.
     + normt Hs' Ht. x_local HH Ht Hs.
   - (* UsRelLoad *) cbn [fst]. normt Hs' Ht. x_local HH Ht Hs. exact H9x.
   - (* UsRelCas *) destruct Hok as (_ & (Hlate & _)). cas_split w; normt Hs' Ht.
-    + subst old. destruct HA as (C1 & S1 & S2). destruct H9 as (U7 & U25 & U6). unfold tb2 in S2.
+    + subst old. destruct HA as (_ & C1 & S1 & S2). destruct H9 as (U7 & U25 & U6). unfold tb2 in S2.
       assert (kof w t = Rrel (wake u) (tb2 (clear_on u))) as Kt by (rewrite Kp; reflexivity).
       cbn [pcX] in H9x.
       destruct (wake u) as [|p0 r0] eqn:Ew.
